@@ -266,7 +266,12 @@ class ParamikoTransport(Transport):
         self._pre_open_closing_log(closing=True)
 
         if self.session_channel:
-            self.session_channel.close()
+            try:
+                self.session_channel.close()
+            except (SSHException, EOFError, OSError) as exc:
+                # closing the channel sends a message to the device, which fails if the connection
+                # went away underneath us; there is nothing to close gracefully in that case
+                self.logger.warning(f"encountered error closing the ssh channel: {exc}")
 
             if self.socket:
                 self.socket.close()
